@@ -45,6 +45,7 @@ struct Ambient {
     void hit(const char *n) { calls++; by[n]++; }
 } AMB;
 
+extern "C" int sodium_crit_leave(void); // private/mutex.h: used only to drop the library lock after an observed termination
 sigjmp_buf g_term_env;
 volatile int g_term_armed = 0;
 bool g_kernel_mode = false;      // the byte stream is served through getrandom()/read() instead of the vtable
@@ -427,7 +428,7 @@ struct Exec {
             uint64_t amb0 = AMB.calls;
             // (the stack the library's frames will occupy is filled like the output buffers: differently in the replay execution)
             if (sigsetjmp(g_term_env, 1) == 0) { g_term_armed = 1; dirty_stack(0x0101010101010101ull * prefill); run_op(op, o, prefill); g_term_armed = 0; }
-            else { g_term_armed = 0; simos_reset_thread(); o.terminated = 1; o.out.clear(); o.invalid.clear(); }
+            else { g_term_armed = 0; simos_reset_thread(); (void) sodium_crit_leave(); o.terminated = 1; o.out.clear(); o.invalid.clear(); } // (sodium_misuse() ends the process holding the library lock)
             o.end = g_src.pos; o.req_last = g_src.log.size();
             o.ambient_calls = AMB.calls - amb0;
             sr.ops.push_back(o);
